@@ -2174,3 +2174,38 @@ PROPS["C13"]["level_text"] += (" The writer threaded through (Props/C13Threaded.
     "c13_writer_threaded_ok - on programs that serialise this is toWriter. Kernel-checked runs: [1,2] into a writer whose third write "
     "fails (handed `[`, `1`, `,`; accepted `[1`; that io::Error), [{(): null}] (two buffers, then key must be a string; a writer failing "
     "at the second write pre-empts it).")
+
+# ---- C02 o C07 / C08: the float leaves of a parsed Value (branch wip-q4; makes the honesty-pass item's composition a theorem)
+PROPS["C02"]["lean_targets"] = PROPS["C02"]["lean_targets"][:-1] + ["SJ.Props.C02Floats"] + PROPS["C02"]["lean_targets"][-1:]
+PROPS["C02"]["partial"] = [x for x in PROPS["C02"]["partial"] if not x.startswith("for float literals `canon` is the configured conversion itself")] + [
+    "for float literals `canon` is the configured conversion itself (Spec.Canon.numOf = Model.Num.convert*), so c02_value_is_canon alone says "
+    "nothing about float accuracy. The composition with C07 / C08 is now a theorem about the parsed value (Props/C02Floats.lean): "
+    "c02_floats_nearest_fr (float_roundtrip, input shorter than 2^29 - 20 bytes: the value is canon of a syntax tree of the text in which "
+    "EVERY number node that canon turns into a float b has roundNE64 (exact decimal value of that literal) = some b, IsNearestEven64, and "
+    "every integer is the literal's exact integer) and c02_floats_5ulp_default (default build, input shorter than 2^30 bytes: every float "
+    "leaf finite, sign of its literal, within 5 ulp of the literal's exact value, and equal to roundNE64 of it inside the window <= 15 "
+    "significant digits / net exponent within +-22). What remains is only what C07 / C08 themselves leave: these size bounds, and in the "
+    "default build 5 ulp (not nearest) outside the window. Both theorems state it twice: over the number nodes of the TREE (AllNums; "
+    "duplicate-key members that the object drops included) and over the numbers of the VALUE (every x in numLeaves v is numOf of a number "
+    "node p in numNodes t - canon_leaves: canon only copies, objectOf selects among the member values - with NearestNum p x resp. "
+    "Within5Num p x). arbitrary_precision has no float leaves (literal text). The driver's verdict `C02 <src>: float "
+    "value of literal ...` (every number of the crate's value matched with its literal, judged with Spec.Decimal / Spec.Ieee alone) is unchanged",
+]
+PROPS["C02"]["assumptions"] = [x for x in PROPS["C02"]["assumptions"] if not x.startswith("float values are whatever the configured conversion returns")] + [
+    "float values are whatever the configured conversion returns; their accuracy is C07 / C08, composed with C02 in c02_floats_nearest_fr / "
+    "c02_floats_5ulp_default under the size bounds of C07 (input < 2^29 - 20 bytes) resp. C08 (input < 2^30 bytes)"]
+PROPS["C02"]["level_text"] += (" Composition with C07 / C08 (Props/C02Floats.lean over Proofs/C02Floats.lean: AllNums = a predicate at every number node of "
+    "the syntax tree, derives_allNums = every number node of a derived tree is a well-formed literal no longer than the text): "
+    "c02_floats_nearest_fr - under float_roundtrip every float of a parsed Value (text shorter than 2^29 - 20 bytes) is the IEEE nearest-even "
+    "binary64 of the exact decimal value of the literal it was parsed from and every integer is the literal's exact integer "
+    "(c02_value_is_canon + numOf_fr + c07_other_literals / deFloat64_nearest_all + roundNE64_correct), stated at every number node of the "
+    "tree and, through canon_leaves (every number of canon t is numOf of a number node of t), at every number of the value; c02_float_document_nearest_fr - the "
+    "value-level reading for a document that is one number; c02_floats_5ulp_default - in the default build every float leaf (text shorter "
+    "than 2^30 bytes) is finite, signed as its literal, within 5 ulp of the literal's exact value and correctly rounded inside the exact "
+    "window (numOf_eq_numOfLit + c08_finite_signed / c08_within_5ulp / c08_exact_short); kernel-checked examples on "
+    "{\"a\":[0.1,-2.5e-3],\"n\":7} in both builds and [12345678901234567890e-300] in the default build.")
+
+# ---- C16: c16_agree_partial is not a separate result (honesty-pass item, reworded; level_text never listed it)
+PROPS["C16"]["partial"] = [x for x in PROPS["C16"]["partial"] if x != "c16_agree_partial restates c16_owned_borrowed"] + [
+    "c16_agree_partial is c16_owned_borrowed restated as two iffs (its proof is `rw [c16_owned_borrowed]` + Iff.rfl): it is kept because "
+    "other files may refer to it, it is listed in Audit/C16.lean for its axioms only, and it is NOT a separate result (level_text does not count it)"]
